@@ -193,16 +193,41 @@ def range_size(repo: Repo, rep: Report) -> None:
         rep.undecide("SLC-2", "did not find a ceiling-division return for both step signs")
 
 
+def _inline_defs(e: ast.AST, facts: Optional[G.Facts], depth: int = 3) -> ast.AST:
+    """replace local names by their (single, still valid) definitions, e.g. `width = self.shape[1]`"""
+    if facts is None or depth == 0:
+        return e
+
+    class Sub(ast.NodeTransformer):
+        def visit_Name(self, n: ast.Name) -> ast.AST:
+            d = facts.definition(n.id)
+            if d is None:
+                return n
+            try:
+                sub = ast.parse(d, mode="eval").body
+            except SyntaxError:
+                return n
+            if not isinstance(sub, (ast.Attribute, ast.Subscript, ast.Name)):
+                return n  # only aliases are inlined, not computations
+            return _inline_defs(sub, facts, depth - 1)
+
+    import copy
+    return ast.fix_missing_locations(Sub().visit(copy.deepcopy(e)))
+
+
 def gather(repo: Repo, rep: Report) -> None:
     mod = repo.mod(ARRAY)
     fn = mod.func("Array2D._getitem_impl")
     rep.saw(ARRAY, "Array2D._getitem_impl")
     lz = L.Linearizer()
+    expr_facts: Dict[int, G.Facts] = {}
+    G.Walker(on_expr=lambda n, f: expr_facts.setdefault(id(n), f)).run_function(fn)
     n = 0
     for node in ast.walk(fn):
         if isinstance(node, ast.Subscript) and norm(node.value) == "self.data" and isinstance(node.ctx, ast.Load):
             n += 1
-            f = lz.lin(node.slice)
+            sl = _inline_defs(node.slice, expr_facts.get(id(node)))
+            f = lz.lin(sl)
             prods = [s for s in (L.symbols(f) if f else []) if L.SYMINFO.get(str(s), ("",))[0] == "mul"]
             strides = [set(L.SYMINFO[str(p)][1]) for p in prods]
             good = f is not None and len(prods) == 1 and "self.shape[1]" in strides[0] and f[prods[0]] == 1 and len(
@@ -210,6 +235,9 @@ def gather(repo: Repo, rep: Report) -> None:
             ) == 1 and L.cval(f) == 0
             if good:
                 rep.ok("SLC-3", f"self.data[{norm(node.slice)}] is row-major with stride self.shape[1]")
+            elif f is None or any(L.SYMINFO.get(str(s_), ("",))[0] not in ("mul", "") and "(" in str(s_) for s_ in L.symbols(f)):
+                # an offset computed through a helper or a non-linear form: not in this rule's vocabulary (SLC-G still evaluates it)
+                rep.undecide("SLC-3", f"offset `{norm(node.slice)}` is not a linear form over the row/column")
             else:
                 rep.finding("SLC-3", ARRAY, "Array2D._getitem_impl", short(node),
                             "element offset is not <row> * self.shape[1] + <col>", node.lineno)
